@@ -296,6 +296,36 @@ fn mutating_bodies() -> Vec<(&'static str, String)> {
             v_push(&mut v, b);
         }
     }
+    // the condition of a `while` is evaluated again before every iteration, whatever kind of
+    // expression it is
+    for cond in [
+        "s < 3", "3 > s", "$\"${t}\" == \"run\"", "\"run\" == t", "$\"${t}${t}\" == \"runrun\"", "f()", "xs[0] < 3", "o.n < 3", "o[\"n\"] < 3", "s < 3 && true", "true && s < 3", "[s][0] < 3", "(s < 3)",
+        "{\"k\": s}.k < 3", "s * 1 < 3", "t->len() == 3", "g(s)", "s < lim", "[] == ys", "s != 3",
+    ] {
+        v_push(&mut v, format!(
+            "s := 0\nt := \"run\"\nxs := [0]\nys := []\no := {{\"n\": 0}}\nlim := 3\nfn f() {{\nreturn s < 3\n}}\nfn g(p) {{\nreturn p < 3\n}}\nn := 0\nwhile {} {{\nn += 1\ns += 1\nxs[0] += 1\no.n += 1\nif s >= 3 {{\nt = \"stop!\"\nys += [1]\n}}\nif n > 10 {{\nbreak\n}}\n}}\nprint(n)\n",
+            cond
+        ));
+    }
+    // an endless-looking loop is left by a jump wherever the jump stands, and what follows the loop runs
+    for exit in [
+        "if i >= 3 {\nbreak\n}",
+        "if i < 3 {\ncontinue\n} else {\nbreak\n}",
+        "if i < 2 {\n} else if i < 3 {\n} else {\nbreak\n}",
+        "if i < 3 {\n} else {\n{\nbreak\n}\n}",
+        "if i < 3 {\n} else {\nif true {\nbreak\n}\n}",
+        "for e in [1] {\nif i >= 3 {\nbreak\n}\n}\nif i >= 4 {\nbreak\n}",
+        "if i >= 3 {\nreturn i * 10\n}",
+        "if i < 3 {\n} else {\nreturn i * 10\n}",
+        "k := fn () {\nreturn i >= 3\n}\nif k() {\nbreak\n}",
+    ] {
+        for head in ["while true {", "while 1 == 1 {", "while i < 100 {", "for e in 0 .. 50 {"] {
+            v_push(&mut v, format!("fn lp() {{\ni := 0\n{}\ni += 1\n{}\n}}\nprint(\"after\")\nreturn i\n}}\nprint(lp())\nprint(\"end\")\n", head, exit));
+            if !exit.contains("return") {
+                v_push(&mut v, format!("i := 0\n{}\ni += 1\n{}\n}}\nprint(\"after\")\nprint(i)\n", head, exit));
+            }
+        }
+    }
     // while: the condition is re-evaluated before every iteration, also after continue
     for k in 0..=4 {
         v.push((
